@@ -213,8 +213,7 @@ theorem unapplyParts_applied (m : KV) (segs : List Seg) (acc : KV)
         simp only [List.map_cons, partOf, valOf, hg, Option.getD_some, unapplyParts, hv, hn, hne, insAll]
         simpa [partOf, valOf] using ih' _
 
-def segParams (segs : List Seg) : List Bytes :=
-  segs.filterMap fun s => match s with | .param n => some n | .lit _ => none
+def segParams (segs : List Seg) : List Bytes := segs.filterMap Seg.name?
 
 theorem kvInsert_fresh (k v : Bytes) (acc : KV) (h : ∀ e ∈ acc, e.1 ≠ k) : kvInsert k v acc = acc ++ [(k, v)] := by
   induction acc with
@@ -233,11 +232,12 @@ theorem insAll_nodup (m : KV) (segs : List Seg) (acc : KV)
     cases s with
     | lit l =>
       simp only [insAll]
-      have : segParams (Seg.lit l :: ss) = segParams ss := by simp [segParams]
+      have : segParams (Seg.lit l :: ss) = segParams ss := by
+        simp only [segParams]; rw [List.filterMap_cons]; rfl
       rw [this] at hnd hfresh ⊢
       exact ih acc hnd hfresh
     | param n =>
-      have hp : segParams (Seg.param n :: ss) = n :: segParams ss := by simp [segParams]
+      have hp : segParams (Seg.param n :: ss) = n :: segParams ss := by simp [segParams, Seg.name?]
       rw [hp] at hnd hfresh ⊢
       simp only [insAll]
       rw [List.nodup_cons] at hnd
@@ -444,5 +444,221 @@ theorem areAmbiguousDec_complete (p q : Pat) (sch : Option Bytes) (path : Bytes)
   · have : ps1 = ps2 := by rw [e1] at e2; exact e2
     subst this
     exact ambSegsDec_complete _ _ _ _ _ _ _ h1 h2
+
+/-! ### `RoutePattern::parse` invariants -/
+
+/-- What `parse` guarantees about a finished segment. -/
+def segGood (s : Segment) : Prop := s.str ≠ [] ∧ 47 ∉ s.str ∧ (s.parameter = true → 58 ∉ s.str)
+
+/-- A first literal segment of a relative, scheme-less pattern cannot be read as `scheme:`. -/
+def firstGood (s : Segment) : Prop :=
+  s.parameter = false → ∃ b tl, s.str = b :: tl ∧ (isAlpha b = false ∨ 58 ∉ tl)
+
+def curOk (segments : List Segment) (scheme : Option Bytes) (absolute : Bool) : PState → Prop
+  | .start => segments = [] ∧ scheme = none ∧ absolute = false
+  | .schemeOrLiteral _ acc =>
+    segments = [] ∧ scheme = none ∧ absolute = false ∧ 47 ∉ acc ∧ 58 ∉ acc ∧ ∃ b tl, acc = b :: tl
+  | .afterScheme => segments = [] ∧ scheme ≠ none
+  | .segmentStart => segments = [] → scheme = none → absolute = false → False
+  | .literal _ acc =>
+    47 ∉ acc ∧ acc ≠ [] ∧
+      (segments = [] → scheme = none → absolute = false → ∃ b tl, acc = b :: tl ∧ isAlpha b = false)
+  | .parameter _ acc => 47 ∉ acc ∧ 58 ∉ acc
+  | .failed _ => True
+
+structure PInv (a : PAcc) : Prop where
+  segs : ∀ s ∈ a.segments, segGood s
+  cur : curOk a.segments a.scheme a.absolute a.st
+  first : a.scheme = none → a.absolute = false → ∀ s rest, a.segments = s :: rest → firstGood s
+
+theorem pinv_init : PInv {} := ⟨by simp, by simp [curOk], by simp⟩
+
+theorem pinv_transition (a : PAcc) (c offset : Nat) (h : PInv a) : PInv (transition a c offset) := by
+  obtain ⟨st, scheme, absolute, segments⟩ := a
+  obtain ⟨hs, hc, hf⟩ := h
+  simp only at hs hc hf
+  cases st <;> simp only [curOk] at hc <;> simp only [transition] <;> (repeat' split) <;>
+    first
+    | (constructor <;> simp_all [curOk, segGood, firstGood] <;> done)
+    | skip
+  all_goals
+    first
+    | (refine ⟨?_, ?_, ?_⟩ <;> simp_all [curOk, segGood, firstGood, List.mem_append] <;> grind)
+    | (refine ⟨?_, ?_, ?_⟩
+       · simp_all [curOk, segGood, firstGood, List.mem_append] <;> grind
+       · simp_all [curOk, segGood, firstGood, List.mem_append]
+       · cases segments with
+         | nil => simp_all [curOk, segGood, firstGood, List.mem_append] <;> grind
+         | cons s0 rest0 =>
+           intro h1 h2 s rest heq
+           simp only [List.cons_append, List.cons.injEq] at heq
+           exact hf h1 h2 s rest0 (by rw [heq.1]))
+    | (trace_state; sorry)
+
+
+theorem pinv_loop (a : PAcc) (offset : Nat) (s : Bytes) (a' : PAcc) (off' : Nat)
+    (h : parseLoop a offset s = .ok (a', off')) (hi : PInv a) : PInv a' := by
+  induction s generalizing a offset with
+  | nil => simp [parseLoop] at h; obtain ⟨rfl, rfl⟩ := h; exact hi
+  | cons c rest ih =>
+    simp only [parseLoop] at h
+    split at h
+    · simp at h
+    · exact ih _ _ h (pinv_transition a c offset hi)
+
+/-- Result of `ParseState::end`: every segment is good and the first one cannot be mistaken for a scheme. -/
+theorem pinv_end (a : PAcc) (offset : Nat) (segs : List Segment) (hi : PInv a)
+    (h : parseEnd a offset = .ok segs) :
+    (∀ s ∈ segs, segGood s) ∧
+      (a.scheme = none → a.absolute = false → ∀ s rest, segs = s :: rest → firstGood s) := by
+  obtain ⟨st, scheme, absolute, segments⟩ := a
+  obtain ⟨hs, hc, hf⟩ := hi
+  simp only at hs hc hf
+  cases st <;> simp only [curOk] at hc <;> simp only [parseEnd] at h <;> (repeat' split at h) <;>
+    simp at h <;> subst h
+  all_goals
+    first
+    | exact ⟨hs, hf⟩
+    | (refine ⟨?_, ?_⟩
+       · simp_all [segGood, firstGood, List.mem_append] <;> grind
+       · cases segments with
+         | nil => simp_all [segGood, firstGood, List.mem_append] <;> grind
+         | cons s0 rest0 =>
+           intro h1 h2 s rest heq
+           simp only [List.cons_append, List.cons.injEq] at heq
+           exact hf h1 h2 s rest0 (by rw [heq.1]))
+
+def segNames (segs : List Segment) : List Bytes :=
+  segs.filterMap fun s => if s.parameter then some s.str else none
+
+theorem dupCheck_nodup (seen : List Bytes) (segs : List Segment) (h : dupCheck seen segs = .ok ()) :
+    (segNames segs).Nodup ∧ ∀ n ∈ segNames segs, n ∉ seen := by
+  induction segs generalizing seen with
+  | nil => simp [segNames]
+  | cons s rest ih =>
+    simp only [dupCheck] at h
+    split at h
+    · rename_i hp
+      split at h
+      · simp at h
+      · rename_i hns
+        have := ih _ h
+        have hn : segNames (s :: rest) = s.str :: segNames rest := by simp [segNames, hp]
+        rw [hn]
+        refine ⟨List.nodup_cons.mpr ⟨?_, this.1⟩, ?_⟩
+        · intro hin; exact (this.2 _ hin) (by simp)
+        · intro n hn'
+          simp only [List.mem_cons] at hn'
+          rcases hn' with rfl | hn'
+          · simpa using hns
+          · intro hs; exact (this.2 n hn') (by simp [hs])
+    · rename_i hp
+      have hn : segNames (s :: rest) = segNames rest := by simp [segNames, hp]
+      rw [hn]; exact ih _ h
+
+
+def Seg.structOk : Seg → Bool
+  | .lit l => !l.isEmpty && !l.contains 47
+  | .param n => !n.isEmpty && !n.contains 47 && !n.contains 58
+
+/-- Everything `RoutePattern::parse` guarantees about an accepted pattern. -/
+def Pat.structOk (p : Pat) : Bool := p.segs.all Seg.structOk && nodupB p.params && firstLitOk p
+
+theorem nodup_nodupB (xs : List Bytes) (h : xs.Nodup) : nodupB xs = true := by
+  induction xs with
+  | nil => rfl
+  | cons x rest ih =>
+    rw [List.nodup_cons] at h
+    simp [nodupB, ih h.2, h.1]
+
+theorem toSeg_structOk (s : Segment) (h : segGood s) : s.toSeg.structOk = true := by
+  obtain ⟨h1, h2, h3⟩ := h
+  unfold Segment.toSeg
+  split
+  · rename_i hp; simp [Seg.structOk, h1, h2, h3 hp]
+  · simp [Seg.structOk, h1, h2]
+
+theorem params_map_toSeg (segs : List Segment) :
+    (segs.map Segment.toSeg).filterMap Seg.name? = segNames segs := by
+  induction segs with
+  | nil => rfl
+  | cons s rest ih =>
+    simp only [List.map_cons, segNames] at ih ⊢
+    rw [List.filterMap_cons, List.filterMap_cons, ih]
+    unfold Segment.toSeg
+    by_cases hp : s.parameter = true <;> simp [hp, Seg.name?]
+
+theorem parsePattern_structOk (s : Bytes) (p : Pat) (h : parsePattern s = .ok p) : p.structOk = true := by
+  unfold parsePattern at h
+  split at h
+  · simp at h
+  · rename_i a offset hloop
+    have hinv := pinv_loop _ _ _ _ _ hloop pinv_init
+    split at h
+    · simp at h
+    · rename_i segments hend
+      obtain ⟨hgood, hfirst⟩ := pinv_end a offset segments hinv hend
+      split at h
+      · simp at h
+      · rename_i hdup
+        simp only [Except.ok.injEq] at h
+        subst h
+        have hnd := (dupCheck_nodup [] segments hdup).1
+        simp only [Pat.structOk, Bool.and_eq_true, List.all_eq_true, List.mem_map, forall_exists_index, and_imp,
+          forall_apply_eq_imp_iff₂]
+        refine ⟨⟨fun s hs => toSeg_structOk s (hgood s hs), ?_⟩, ?_⟩
+        · apply nodup_nodupB
+          simp only [Pat.params]
+          rw [params_map_toSeg]; exact hnd
+        · unfold firstLitOk
+          simp only
+          split
+          · rename_i b tl rest hsch habs hsegs
+            cases segments with
+            | nil => simp at hsegs
+            | cons s0 rest0 =>
+              simp only [List.map_cons, List.cons.injEq] at hsegs
+              have hf := hfirst hsch habs s0 rest0 rfl
+              unfold Segment.toSeg at hsegs
+              split at hsegs
+              · simp at hsegs
+              · rename_i hp
+                simp only [Seg.lit.injEq] at hsegs
+                obtain ⟨b', tl', hstr, hor⟩ := hf (by simpa using hp)
+                rw [hsegs.1] at hstr
+                simp only [List.cons.injEq] at hstr
+                obtain ⟨rfl, rfl⟩ := hstr
+                rcases hor with h | h <;> simp [h]
+          · rfl
+
+/-! ### plane -/
+
+theorem buildOk_pairwise (ps : List Pat) (h : buildOk ps = true) :
+    ps.Pairwise (fun p q => areAmbiguous p q = false) := by
+  induction ps with
+  | nil => exact List.Pairwise.nil
+  | cons p rest ih =>
+    simp only [buildOk, Bool.and_eq_true, List.all_eq_true, Bool.not_eq_eq_eq_not, Bool.not_true] at h
+    exact List.Pairwise.cons (fun q hq => h.1 q hq) (ih h.2)
+
+theorem findRoute_some (ps : List Pat) (sch : Option Bytes) (path : Bytes) (i : Nat) (kv : KV)
+    (h : findRoute ps sch path = some (i, kv)) :
+    ∃ p, ps[i]? = some p ∧ p.unapplyUri sch path = some kv := by
+  induction ps generalizing i with
+  | nil => simp [findRoute] at h
+  | cons p rest ih =>
+    simp only [findRoute] at h
+    split at h
+    · rename_i kv' hm
+      simp at h
+      obtain ⟨rfl, rfl⟩ := h
+      exact ⟨p, by simp, hm⟩
+    · cases hf : findRoute rest sch path with
+      | none => simp [hf] at h
+      | some r =>
+        simp [hf] at h
+        obtain ⟨rfl, rfl⟩ := h
+        obtain ⟨q, hq, hm⟩ := ih r.1 hf
+        exact ⟨q, by simpa using hq, hm⟩
 
 end SwimVerif.Route
